@@ -606,3 +606,96 @@ def _drive(sess, rng, data, chunking, capmode, skip, stable, dict_, bs, hlen, mu
         else:
             stall = 0
     return {"verdict": "toolong", "what": "more than %d calls" % max_calls, "pos": pos, "frames": frames}
+
+
+# ------------------------------------------------------------------ skipChecksums must not outlive its frame
+def checksum_only_damage(rng):
+    """A frame whose ONLY damage is one that a checksum reveals (it parses, every block decodes).
+    Returns (damaged frame, description, content as it will be produced)."""
+    e = struct.pack("<I", 0)
+    k = rng.randrange(4)
+    pre = b""; prec = b""
+    if rng.random() < 0.4:
+        prec = rng.randbytes(rng.choice([1, 20, 300])); 
+    if k == 0:      # content checksum itself flipped
+        bcrc = rng.random() < 0.5
+        c = rng.randbytes(rng.choice([1, 40, 700]))
+        comp = rng.random() < 0.5
+        body = (block(prec, True, bcrc) if prec else b"") + block(declib.enc_last(c) if comp else c, not comp, bcrc)
+        content = prec + c
+        crc = xxh32(content) ^ (1 << rng.randrange(32))
+        return header(4, rng.random() < 0.5, bcrc, None, True, None) + body + e + struct.pack("<I", crc), "content checksum field flipped", content
+    if k == 1:      # payload byte of an uncompressed block flipped, block (and content) checksum of the original kept
+        ccrc = rng.random() < 0.5
+        orig = rng.randbytes(rng.choice([1, 33, 500, 5000]))
+        blk = bytearray(block(orig, True, True))
+        i = rng.randrange(len(orig)); blk[4 + i] ^= 1 << rng.randrange(8)
+        fr = header(4, rng.random() < 0.5, True, None, ccrc, None) + (block(prec, True, True) if prec else b"") + bytes(blk) + e
+        if ccrc:
+            fr += struct.pack("<I", xxh32(prec + orig))
+        return fr, "payload byte of an uncompressed block flipped (block checksum mismatch)", prec + bytes(blk[4:4 + len(orig)])
+    if k == 2:      # literal byte inside a compressed block flipped; only the content checksum can tell
+        c = bytearray(rng.randbytes(rng.choice([13, 40, 700])))
+        good = bytes(c)
+        i = rng.randrange(len(c)); c[i] ^= 1 << rng.randrange(8)
+        fr = header(4, rng.random() < 0.5, False, None, True, None) + (block(prec, True, False) if prec else b"") + block(declib.enc_last(bytes(c)), False, False) + e \
+             + struct.pack("<I", xxh32(prec + good))
+        return fr, "literal byte of a compressed block flipped (content checksum mismatch)", prec + bytes(c)
+    # block checksum field of an uncompressed block flipped
+    c = rng.randbytes(rng.choice([1, 64, 900]))
+    blk = bytearray(block(c, True, True)); blk[-1 - rng.randrange(4)] ^= 1 << rng.randrange(8)
+    ccrc = rng.random() < 0.5
+    fr = header(4, rng.random() < 0.5, True, None, ccrc, None) + (block(prec, True, True) if prec else b"") + bytes(blk) + e + (struct.pack("<I", xxh32(prec + c)) if ccrc else b"")
+    return fr, "block checksum field of an uncompressed block flipped", prec + c
+
+def run_skipleak(st, rng):
+    """skipChecksums used on frame k (decoded completely, or abandoned half-way + reset, or completed + reset) must not
+    disable verification of frame k+1 decoded WITHOUT the option on the same context.
+    Returns (evals, None) or (evals, (status, what, detail))."""
+    orc = st["oracle"]
+    mode = rng.choice(["complete", "half_reset", "complete_reset", "skippable_between"])
+    frA, contentA, metaA = gen_frame(rng, b"", nblocks=rng.choice([1, 2, 3]))
+    frB, how, produced = checksum_only_damage(rng)
+    sp = spec_frame(orc, frB, b"", skip=False)
+    sess = Session(st)
+    evals = 0
+    try:
+        det = {"mode": mode, "frameA": frA.hex()[:1200], "frameB_damaged": frB.hex()[:3000], "damage": how}
+        cutA = len(frA) if mode != "half_reset" else rng.randrange(metaA["hlen"] + 1, max(metaA["hlen"] + 2, len(frA)))
+        r = drive(sess, rng, frA[:cutA], rng.choice(["whole", "rand", "one"]), rng.choice(["large", "7", "rand"]), skip=True,
+                  bs=BSIZE[metaA["bsid"]], hlen=metaA["hlen"])
+        if r["verdict"] in ("prop", "noprogress"):
+            return sess.calls, ("prop_fail", str(r["what"]), det)
+        if mode != "half_reset" and (r["verdict"] != "complete" or r["out"] != contentA):
+            return sess.calls, ("prop_fail", "valid frame not decoded with skipChecksums=1: %s %s" % (r["verdict"], r.get("code")), det)
+        if mode in ("half_reset", "complete_reset"):
+            sess.cd.reset()
+            if not sess.model_dead: sess.md.reset()
+        if mode == "skippable_between":
+            r = drive(sess, rng, skippable(rng.randrange(16), rng.randbytes(5)), "whole", "large", skip=False)
+        ch = rng.choice(["whole", "rand", "one", "hdr"]); cap = rng.choice(["large", "7", "rand"])
+        pseed = rng.randrange(1 << 40)
+        c0 = sess.calls
+        r1 = drive(sess, random.Random(pseed), frB, ch, cap, skip=False)
+        t1 = list(sess.trace[c0:])
+        fresh = Session(st)
+        r2 = drive(fresh, random.Random(pseed), frB, ch, cap, skip=False)
+        t2 = list(fresh.trace)
+        evals = sess.calls + fresh.calls
+        fresh.free()
+        det.update({"chunking": ch, "cap": cap, "pseed": pseed, "reused": (r1["verdict"], r1.get("code")), "fresh": (r2["verdict"], r2.get("code"))})
+        for r in (r1, r2):
+            if r["verdict"] in ("prop", "noprogress"):
+                return evals, ("prop_fail", str(r["what"]), det)
+        if r1["verdict"] == "complete" and sp is None:
+            return evals, ("prop_fail", "a frame whose %s is reported COMPLETE (skipChecksums NOT requested) on a context that had used skipChecksums=1 "
+                           "on an earlier frame (%s); a fresh context says %s %s; the specification rejects the frame" % (
+                               how, mode, r2["verdict"], ERR.get(r2.get("code"), r2.get("code"))), det)
+        if t1 != t2 or r1["verdict"] != r2["verdict"] or r1.get("code") != r2.get("code"):
+            return evals, ("prop_fail", "after skipChecksums=1 on an earlier frame (%s) the context decodes a damaged frame differently from a fresh context: %s %s vs %s %s" % (
+                mode, r1["verdict"], r1.get("code"), r2["verdict"], r2.get("code")), det)
+        if r1.get("corr") or r2.get("corr"):
+            return evals, ("corr_fail", "model/code disagree: " + str(r1.get("corr") or r2.get("corr")), det)
+        return evals, None
+    finally:
+        sess.free()
